@@ -926,6 +926,38 @@ func ruleDiscardHookInput(r *core.Reporter) {
 				}
 			})
 		}
+		// the body is not the hook's to read: whatever it consumes (a Peek through a throw-away bufio.Reader fills
+		// 4 KB) is missing when the writer digests and records the payload afterwards
+		var bodyPos ssa.Instruction
+		for _, f := range withAnon(h) {
+			allInstrs(f, func(in ssa.Instruction) {
+				if fa, ok := in.(*ssa.FieldAddr); ok {
+					if tn, fld, _ := ir.FieldOf(fa); tn == "net/http.Response" && fld == "Body" {
+						// a nil test alone reads nothing
+						onlyNilTests := true
+						for _, ld := range ir.Referrers(fa) {
+							u, isLoad := ld.(*ssa.UnOp)
+							if !isLoad {
+								onlyNilTests = false
+								continue
+							}
+							for _, use := range ir.Referrers(u) {
+								b, isB := use.(*ssa.BinOp)
+								if !isB || !(ir.IsNilConst(b.X) || ir.IsNilConst(b.Y)) {
+									onlyNilTests = false
+								}
+							}
+						}
+						if !onlyNilTests {
+							bodyPos = in
+						}
+					}
+				}
+			})
+		}
+		if bodyPos != nil {
+			r.Violated("hook/"+shortName(ir.FullName(h))+"/body", p.InstrPos(bodyPos), "the discard hook reads from resp.Body: the bytes it consumes are gone when the WARC writer computes the payload digest and writes the record — wrong digests, and distinct pages that share a tail are stored as revisits of each other (payload lost)")
+		}
 		if bad != "" {
 			r.Violated("hook/"+shortName(ir.FullName(h)), p.InstrPos(pos), "the discard hook reads resp.%s, which is nil when the WARC writer evaluates the hook on the re-parsed response: the hook then never discards there and rejected responses are written to the WARC", bad)
 		} else {
